@@ -2,18 +2,20 @@
 # tools/run_seeds.sh [tier] — apply every seeded change under /verif/seeded to /repo in turn, run the quick check of
 # its property (plus extra checks listed in seeded/<id>/also), undo it, and write /verif/seeded/RESULTS.md.
 tier="${1:-quick}"
-out=/verif/seeded/RESULTS.md
+ROOT=$(cd "$(dirname "$0")/.." && pwd)
+REPO="${VERIF_REPO:-/repo}"
+out="$ROOT/seeded/RESULTS.md"
 {
-echo "# Seeded changes vs checks ($tier tier, /repo at $(git -C /repo rev-parse --short HEAD), $(date -u +%FT%TZ))"
+echo "# Seeded changes vs checks ($tier tier, repository at $(git -C "$REPO" rev-parse --short HEAD), $(date -u +%FT%TZ))"
 echo
 echo "| seed | property | check exit | violation kinds (count stored) |"
 echo "|------|----------|-----------|-------------------------------|"
 } > $out
-for d in /verif/seeded/C*-m*/; do
+for d in "$ROOT"/seeded/C*-m*/; do
   id=$(basename $d); prop=${id%%-*}
   props="$prop $(cat $d/also 2>/dev/null)"
   for p in $props; do
-    line=$(/verif/tools/try_patch.sh $d/patch.diff $tier $p 2>&1 | grep "^$p exit" | head -1)
+    line=$("$ROOT/tools/try_patch.sh" $d/patch.diff $tier $p 2>&1 | grep "^$p exit" | head -1)
     code=$(echo "$line" | sed 's/.*exit=\([0-9]*\).*/\1/')
     kinds=$(echo "$line" | sed 's/.*VIOLATION lines; *//' | sed 's/  */ /g')
     echo "| $id | $p | $code | $kinds |" >> $out
